@@ -1,6 +1,9 @@
 (* C09 (request-port part): sx entry.  Input (case impl_obs) with
-   case = (datagram (handler ...) sendable), handler = (0 b) constant | (1 prefix) | (2 exact name),
-          sendable = 0 when sendto() to the requester fails with OSError (source port 0);
+   case = (datagram (handler ...) sendable fault), handler = (0 b) constant | (1 prefix) | (2 exact name),
+          sendable = 0 when sendto() to the requester fails with OSError (source port 0),
+          fault = () none | (station index class): station 0 log statement / socket_address_to_str,
+          1 prepare_context of handler [index], 2 can_handle of handler [index], 3 handle lookup,
+          4 Thread.start; class 0 RuntimeError 1 MemoryError 2 KeyError 3 custom 4 OSError 5 ValueError;
    obs  = list of (5 code) ERROR sent to the requester | (1 filename mode options handler_index)
           transfer started | (4) exception logged | (99 raw) anything else that was sent |
           (7) the liveness probe that followed was not answered.
@@ -44,18 +47,37 @@ Definition de_action (x : sx) : option action :=
   | _ => None
   end.
 
+Definition de_fault (x : sx) : option fault :=
+  match x with
+  | L [] => Some None
+  | L [I st; i; I cls] =>
+      obind (asNat i) (fun i =>
+      let e := if (cls =? 4)%Z then OSError else if (cls =? 5)%Z then ValueError else Injected (Z.to_N cls) in
+      match st with
+      | 0%Z => Some (Some (SLog, e))
+      | 1%Z => Some (Some (SPrepare i, e))
+      | 2%Z => Some (Some (SCanHandle i, e))
+      | 3%Z => Some (Some (SHandleLookup, e))
+      | 4%Z => Some (Some (SThreadStart, e))
+      | _ => None
+      end)
+  | _ => None
+  end.
+
 Definition port_entry (x : sx) : sx :=
   match x with
-  | L [L [B d; hs; sb]; ix] =>
-      match asListOf de_handler hs, asBool sb, asListOf de_action ix with
-      | Some hs, Some sendable, Some io =>
+  | L [L [B d; hs; sb; fx]; ix] =>
+      match asListOf de_handler hs, asBool sb, de_fault fx, asListOf de_action ix with
+      | Some hs, Some sendable, Some f, Some io =>
           (* one iteration of the serve loop: recvfrom truncates the datagram to 512 bytes *)
           let d' := firstn MAX_REQUEST_PACKET_SIZE d in
-          let m := match run_loop false hs [(sendable, d)] with [m] => m | _ => [] end in
-          L [L (map sx_action m); L (map sxS (port_holds sendable hs d' m)); L (map sxS (port_holds sendable hs d' io))]
-      | None, _, _ => sxS "bad-case"
-      | _, None, _ => sxS "bad-case"
-      | _, _, None => sxS "bad-obs"
+          let m := match run_loop_f catch_all hs [(f, sendable, d)] with [m] => m | _ => [] end in
+          L [L (map sx_action m); L (map sxS (port_holds_f f sendable hs d' m));
+             L (map sxS (port_holds_f f sendable hs d' io))]
+      | None, _, _, _ => sxS "bad-case"
+      | _, None, _, _ => sxS "bad-case"
+      | _, _, None, _ => sxS "bad-case"
+      | _, _, _, None => sxS "bad-obs"
       end
   | _ => sxS "bad-input"
   end.
